@@ -63,7 +63,7 @@ impl RandomProp for WellFormed {
             nan_zm: true,
             max_parts: parts,
             max_pts: pts,
-            disk_every: 0,
+            disk_every: 6,
         })
     }
     fn cases(env: &Env) -> u64 {
@@ -124,10 +124,37 @@ fn wellformed_k<K: Kind>(c: &FileCase, ctx: &mut Ctx) -> Result<(), Fail> {
     }
     let shapes: Vec<K> = build_all(&c.geoms, c.ctor);
     let written: Vec<Geom> = views(&shapes).iter().map(file_view).collect();
-    for with_shx in [true, false] {
-        let (shp, _shx) = match write_bytes_hist(&shapes, with_shx, c.fin, c.mid_fins, c.rejects) {
-            Ok(x) => x,
-            Err(e) => fail!("write-error", "{}", e),
+    for route in 0..3u8 {
+        let with_shx = route == 0;
+        if route == 2 && !c.disk {
+            continue;
+        }
+        let (shp, _shx) = if route == 2 {
+            // files on disk through ShapeWriter::from_path (BufWriter<File>)
+            ctx.class("disk-route");
+            let p = scratch_dir().join("c02.shp");
+            {
+                let mut w = shapefile::ShapeWriter::from_path(&p).map_err(|e| Fail::new("write-error", err_str(&e)))?;
+                if c.fin == Finish::WriteShapes {
+                    w.write_shapes(shapes.iter()).map_err(|e| Fail::new("write-error", err_str(&e)))?;
+                } else {
+                    for (i, s) in shapes.iter().enumerate() {
+                        w.write_shape(s).map_err(|e| Fail::new("write-error", err_str(&e)))?;
+                        if c.mid_fins & (1 << (i % 32)) != 0 {
+                            w.finalize().map_err(|e| Fail::new("write-error", err_str(&e)))?;
+                        }
+                    }
+                    if c.fin == Finish::FinalizeDrop {
+                        w.finalize().map_err(|e| Fail::new("write-error", err_str(&e)))?;
+                    }
+                }
+            }
+            (std::fs::read(&p).map_err(|e| Fail::new("disk-io", e.to_string()))?, None)
+        } else {
+            match write_bytes_hist(&shapes, with_shx, c.fin, c.mid_fins, c.rejects) {
+                Ok(x) => x,
+                Err(e) => fail!("write-error", "{}", e),
+            }
         };
         let d = match refcodec::decode(&shp, Mode::Strict) {
             Ok(d) => d,
